@@ -78,6 +78,19 @@ Definition count_pred (T:list triple) (p:N) : nat := length (filter (fun t => te
 Definition REPORT_PREDS : list N :=
   [sh_result; sh_detail; sh_focusNode; sh_value; sh_resultPath; sh_sourceShape; sh_sourceConstraintComponent;
    sh_resultSeverity; sh_conforms].
+(* one row per result node, at every sh:detail depth: focus, value, source shape, component, severity *)
+Definition rrow : Type := (term * option term * term * N * term)%type.
+Definition rrow_eqb (a b:rrow) : bool :=
+  let '(f1, v1, s1, c1, x1) := a in let '(f2, v2, s2, c2, x2) := b in
+  term_eqb f1 f2 && opt_term_eqb v1 v2 && term_eqb s1 s2 && N.eqb c1 c2 && term_eqb x1 x2.
+Definition model_rows (rs:list vresult) : list rrow :=
+  map (fun x => let r := snd x in (rfocus r, rvalue r, rsrc r, rcomp r, rsev r)) (snd (label_all rs 1)).
+Definition check_report_rows (W:world) (o:opts) (sg g:graph) (E:env) (rows:list rrow) : bool :=
+  match validate_impl W o sg g E with
+  | Ok (c, rs) => ms_eqb rrow_eqb (model_rows rs) rows
+  | Err _ => false
+  end.
+
 Definition check_report (W:world) (o:opts) (sg g:graph) (E:env) (verdict:bool) (hist:list nat) : bool :=
   match validate_impl W o sg g E with
   | Ok (c, rs) =>
